@@ -3,6 +3,7 @@ package ppkg
 import (
 	"bytes"
 	"fmt"
+	"io"
 	"math"
 	"runtime"
 	"strconv"
@@ -23,6 +24,35 @@ import (
 func init() { wk.Register("C12", c12) }
 
 // toObj converts a logical value into the tool's object types.
+// shapedReader delivers data in pieces of the given sizes (cycled); with eofWithData the final piece comes together
+// with io.EOF in the same call, which the io.Reader contract allows.
+type shapedReader struct {
+	data        []byte
+	sizes       []int
+	k           int
+	eofWithData bool
+}
+
+func (s *shapedReader) Read(p []byte) (int, error) {
+	if len(s.data) == 0 {
+		return 0, io.EOF
+	}
+	n := s.sizes[s.k%len(s.sizes)]
+	s.k++
+	if n > len(p) {
+		n = len(p)
+	}
+	if n > len(s.data) {
+		n = len(s.data)
+	}
+	copy(p, s.data[:n])
+	s.data = s.data[n:]
+	if len(s.data) == 0 && s.eofWithData {
+		return n, io.EOF
+	}
+	return n, nil
+}
+
 func toObj(v *rdbgen.Value) interface{} {
 	switch v.Kind {
 	case "string":
@@ -452,7 +482,21 @@ func c12(c *wk.Ctx) {
 				r.Violationf("C12|file|outcome=encode-error", rep, "EncodeFooter: %v", err)
 				return
 			}
-			l := rdb.NewLoader(bytes.NewReader(buf.Bytes()))
+			// the file comes back through one of several legal io.Reader behaviours: everything at once, short
+			// reads, the last bytes delivered together with io.EOF, one byte at a time
+			shape := []string{"contiguous", "short-reads", "data-with-eof", "one-byte+data-with-eof"}[i%4]
+			var src io.Reader = bytes.NewReader(buf.Bytes())
+			switch shape {
+			case "short-reads":
+				src = &shapedReader{data: buf.Bytes(), sizes: []int{1, 3, 1000, 7}}
+			case "data-with-eof":
+				src = &shapedReader{data: buf.Bytes(), sizes: []int{4096}, eofWithData: true}
+			case "one-byte+data-with-eof":
+				src = &shapedReader{data: buf.Bytes(), sizes: []int{1}, eofWithData: true}
+			}
+			r.Count("file_roundtrip_source:"+shape, 1)
+			rep = fmt.Sprintf("%d entries, read back from a %s source", n, shape)
+			l := rdb.NewLoader(src)
 			if err := l.Header(); err != nil {
 				r.Violationf("C12|file|outcome=header-rejected", rep, "Header: %v", err)
 				return
